@@ -138,7 +138,8 @@ def judge(prop, mode, tier, seed, replay, scs=None):
             # the implementation-shaped model: exhaustive on the spec side, and these runs' event traces must be
             # behaviours of it (they are judged by the property-level spec like every other run)
             asynctrace.model_runs(out, sc, mode, tier)
-            scs = scs + asynctrace.scenarios(seed, 32 if tier == "quick" else 400, mode)
+            scs = scs + asynctrace.scenarios(seed, 32 if tier == "quick" else 400, mode) \
+                + asynctrace.serial_scenarios(seed, 32 if tier == "quick" else 400, mode)
         recs = record(scs)
         if replay is None:
             asynctrace.conformance(out, recs, sc)
